@@ -154,22 +154,25 @@ def pair_sustain(ctx, R="C07.pair"):
     ctx.check(win is not None and str(win) == "None", R, a, "Sustain window %s" % win, "Sustain ranges over the whole sequence",
               "Sustain.apply passes window `%s`; the checker walks the whole sequence" % win, bv[0])
     iff = _one(ctx, ra.calls_named("Iff"), "Iff", a)
-    t = str(ra.at(iff[1], iff[0]))
-    s = "block.sustain_count(f)"
-    ctx.check(t == "Iff(vars[i], vars[(i)//(%s)*%s])" % (s, s), R, a, "Sustain anchor %s" % t,
+    from ..facts import canon_loopvars
+    ca = lambda x: canon_loopvars(a, [str(x)])[0]          # loop variables of the encoder by position: factor, level, list, trial
+    cc = lambda x: canon_loopvars(c, [str(x)])[0]          # of the checker: factor, group start, member offset
+    t = ca(ra.at(iff[1], iff[0]))
+    s = "block.sustain_count(_v0)"
+    ctx.check(t == "Iff(_v2[_v3], _v2[(_v3)//(%s)*%s])" % (s, s), R, a, "Sustain anchor %s" % t,
               "trial i equals the first trial of its sustain group", "Sustain.apply ties trial i to `%s`" % t, iff[0])
-    rng = [l for l in ra.for_loops() if l["target"] == "i"]
-    ctx.check(len(rng) == 1 and str(rng[0]["iter"]) == "range(0, len(vars))", R, a, "Sustain range", "all trials are tied",
+    rng = [l for l in ra.for_loops() if ca(l["target"]) == "_v3"]
+    ctx.check(len(rng) == 1 and ca(rng[0]["iter"]) == "range(0, len(_v2))", R, a, "Sustain range", "all trials are tied",
               "Sustain.apply no longer ranges over all trials: %s" % [str(l["iter"]) for l in rng])
     # checker: groups start at multiples of s, members i+j for j in 1..s-1 compared with the first
-    li = [l for l in rc.for_loops() if l["target"] == "i"]
-    lj = [l for l in rc.for_loops() if l["target"] == "j"]
-    ctx.check(len(li) == 1 and str(li[0]["iter"]) == "range(0, len(sample[f]), %s)" % s, R, c, "Sustain group starts",
+    li = [l for l in rc.for_loops() if cc(l["target"]) == "_v1"]
+    lj = [l for l in rc.for_loops() if cc(l["target"]) == "_v2"]
+    ctx.check(len(li) == 1 and cc(li[0]["iter"]) == "range(0, len(sample[_v0]), %s)" % s, R, c, "Sustain group starts",
               "groups start at multiples of the sustain count", "Sustain checker group loop is %s" % [str(l["iter"]) for l in li])
-    ctx.check(len(lj) == 1 and str(lj[0]["iter"]) == "range(1, %s)" % s, R, c, "Sustain group members",
+    ctx.check(len(lj) == 1 and cc(lj[0]["iter"]) == "range(1, %s)" % s, R, c, "Sustain group members",
               "every other member of the group is compared", "Sustain checker member loop is %s" % [str(l["iter"]) for l in lj])
     cmp_ = [st for st in rc.stmts if isinstance(st, ast.If) and "levels[" in ast.unparse(st.test) and "!=" in ast.unparse(st.test)]
-    ctx.check(len(cmp_) == 1 and str(rc.at(cmp_[0], cmp_[0].test)) == "(sample[f][i + j] != sample[f][i])" and
+    ctx.check(len(cmp_) == 1 and cc(rc.at(cmp_[0], cmp_[0].test)) in ("(sample[_v0][_v1 + _v2] != sample[_v0][_v1])", "(sample[_v0][_v2 + _v1] != sample[_v0][_v1])") and
               ast.unparse(cmp_[0].body[0]) == "return False", R, c, "Sustain comparison",
               "member i+j must equal the group's first trial", "Sustain checker comparison changed: %s" % (
                   str(rc.at(cmp_[0], cmp_[0].test)) if cmp_ else "?"))
@@ -186,9 +189,9 @@ def pair_sustain(ctx, R="C07.pair"):
         from ..facts import Facts
         Fa, Fc = Facts(a), Facts(c)
         iffs = [x for x in Fa.stmts if isinstance(x, ast.Expr) and "iffs.append" in ast.unparse(x)]
-        reads = [x for x in Fc.stmts if isinstance(x, ast.Assign) and "sample[f]" in ast.unparse(x.value)]
-        fa = sorted({l for x in iffs for l in Fa.conds(x)})
-        fc = sorted({l for x in reads for l in Fc.conds(x)})
+        reads = [x for x in Fc.stmts if isinstance(x, ast.Assign) and "sample[_v0]" in cc(ast.unparse(x.value))]
+        fa = sorted({ca(l) for x in iffs for l in Fa.conds(x)})
+        fc = sorted({cc(l) for x in reads for l in Fc.conds(x)})
         ctx.check(bool(iffs) and bool(reads) and fa == [] and fc == ["(1 < %s)" % s], R, c, "Sustain factor filter %s / %s" % (fa, fc), "every factor of the design is held by the encoder; the checker skips only unsustained factors",
                   "the two sides of Sustain cover different factors: encoder condition %s, checker condition %s (expected none / only `sustain count > 1`): a factor the encoder holds constant "
                   "is not checked, or the reverse" % (fa, fc), lc[0])
@@ -302,10 +305,32 @@ def pair_kinarow(ctx, R="C07.pair"):
     lp = [l for l in rcs.for_loops()]
     ctx.check(len(lp) == 1 and str(lp[0]["iter"]) == "range(start, end)", R, cs, "_KInARow run scan",
               "runs are counted over the window [start, end)", "run scan ranges over %s" % [str(l["iter"]) for l in lp])
-    body = ast.unparse(cs.node)
-    ctx.check("elif l == level:" in body and "count += 1" in body and "if count > 0 and l != level:" in body and
-              "counts.append(count)" in body and "return self._potential_counts_conform(counts)" in body, R, cs,
-              "_KInARow run counting", "maximal runs of the level are collected and judged by _potential_counts_conform",
+    # by role: the list handed to _potential_counts_conform collects the counter (a) inside the scan when a run ends (counter positive and the
+    # trial's level differs), (b) after the scan when a run is still open; the counter grows by one exactly on trials that hold the level
+    from ..facts import Facts as _F, canon_loopvars as _canon
+    Fcs = _F(cs)
+    rets_ = [x for x in Fcs.stmts if isinstance(x, ast.Return) and isinstance(x.value, ast.Call) and call_attr(x.value) == "_potential_counts_conform" and
+             len(x.value.args) == 1 and isinstance(x.value.args[0], ast.Name)]
+    ok_runs = False
+    if len(rets_) == 1:
+        L = rets_[0].value.args[0].id
+        apps = [x for x in Fcs.stmts if isinstance(x, ast.Expr) and isinstance(x.value, ast.Call) and call_attr(x.value) == "append" and dotted(x.value.func.value) == L and
+                len(x.value.args) == 1 and isinstance(x.value.args[0], ast.Name)]
+        cnts = {x.value.args[0].id for x in apps}
+        if len(apps) == 2 and len(cnts) == 1:
+            cnt = cnts.pop()
+            loop_nodes = {id(y) for l_ in lp for y in ast.walk(l_["stmt"])}
+            inside = [x for x in apps if id(x) in loop_nodes]
+            after = [x for x in apps if id(x) not in loop_nodes]
+            incs = [x for x in Fcs.stmts if isinstance(x, ast.AugAssign) and isinstance(x.op, ast.Add) and dotted(x.target) == cnt and ast.unparse(x.value) == "1"]
+            cz = lambda st_: sorted(_canon(cs, [str(l_) for l_ in Fcs.conds(st_)]))
+            if len(inside) == 1 and len(after) == 1 and len(incs) == 1:
+                c_in, c_af, c_inc = cz(inside[0]), cz(after[0]), cz(incs[0])
+                # the reset that closes the run follows the append in the same branch
+                resets = [x for x in Fcs.stmts if isinstance(x, ast.Assign) and dotted(x.targets[0]) == cnt and ast.unparse(x.value) == "0" and id(x) in loop_nodes]
+                ok_runs = ("(0 < %s)" % cnt) in c_in and any("!= level" in t_ or "level !=" in t_ for t_ in c_in) and c_af == ["(0 < %s)" % cnt] and \
+                    any(("== level" in t_ or "level ==" in t_) and not t_.startswith("not(") for t_ in c_inc) and len(resets) == 1
+    ctx.check(ok_runs, R, cs, "_KInARow run counting", "maximal runs of the level are collected and judged by _potential_counts_conform",
               "the run-counting loop of _KInARow.potential_sample_conforms changed shape")
     fin = [s for s in base_c.node.body if isinstance(s, ast.Return)]
     ctx.check(len(fin) == 1 and ast.unparse(fin[0].value).startswith("all(block.map_block_trial_ranges("), R, base_c,
@@ -411,8 +436,9 @@ def crossing_facts(ctx, R="C07.crossing"):
               "Cross.apply's combination list is `%s`" % X[:140], tc[0])
     cc = [s for s in ra.stmts if isinstance(s, ast.Assign) and dotted(s.targets[0]) == "crossing_combinations"]
     stt = [s for s in ra.stmts if isinstance(s, ast.Assign) and dotted(s.targets[0]) == "states"]
-    ctx.require(len(cc) == 1 and len(stt) == 1, "Cross.apply: crossing_combinations / states not found")
-    t_cc, t_st = str(ra.at(cc[0], cc[0].value)), str(ra.at(stt[0], stt[0].value))
+    ctx.require(len(cc) >= 1 and len(stt) == 1, "Cross.apply: crossing_combinations / states not found")
+    # the value the list holds where the state variables are chunked (a comprehension and the equivalent nested loops have one normal form)
+    t_cc, t_st = str(ra.at(stt[0], ast.Name(id="crossing_combinations", ctx=ast.Load()))), str(ra.at(stt[0], stt[0].value))
     ctx.check(t == "[block.sustain_count(c[0])*combination_weight(tuple(_b0.values())) for _b0 in %s]" % X and
               t_cc.startswith("[[block.encode_combination(_b1, _b0) for _b1 in %s] for _b0 in " % X) and t_st.endswith(", len(%s)))" % X), R, ca, "F3 SAT aligned lists",
               "F3: weights, encoded combinations and the state-variable chunks are all taken over the same (filtered) combination list, so they pair up by position",
